@@ -491,6 +491,13 @@ func (a *Act) applyModifies(st *State, con *Contract, env *SpecEnv) {
 		case m.Text == "memory":
 			a.havocMemory(st, m.Except)
 			continue
+		case m.Text == "ghost":
+			if gh, ok := g.ghosts[m.LoopFn]; ok {
+				key, hs := ghostKey(gh)
+				vc.setHeap(st, key, hs, vc.fresh("gh_"+gh.Name, hs))
+				a.logHeap(key)
+			}
+			continue
 		}
 		func() {
 			defer func() {
@@ -905,6 +912,10 @@ func (a *Act) frameAllowed() (map[string][]string, map[string]bool, bool) {
 		if m.Text == "memory" {
 			fi.memory = true
 			fi.keep = append(fi.keep, m.Except...)
+			continue
+		}
+		if m.Text == "ghost" {
+			fi.anyKey["G:"+m.LoopFn] = true
 			continue
 		}
 		func() {
